@@ -48,6 +48,7 @@ func (ex *Exec) step(f *frame, st *State, ins ssa.Instruction) {
 			ex.storeLoc(st, l, sc.zero(elem))
 			if !escapes(x) && len(ex.private) < 24 {
 				ex.private = append(ex.private, r)
+				ex.privateAllocs = append(ex.privateAllocs, privAlloc{x, r, f})
 			}
 		}
 	case *ssa.BinOp:
@@ -819,6 +820,18 @@ func escapes(a *ssa.Alloc) bool {
 				if visit(u, depth+1) {
 					return true
 				}
+			case *ssa.MakeClosure:
+				// captured by a closure that only reads it: not an escape for writes
+				fn := u.Fn.(*ssa.Function)
+				idx := -1
+				for i, b := range u.Bindings {
+					if b == v {
+						idx = i
+					}
+				}
+				if idx < 0 || idx >= len(fn.FreeVars) || !readOnlyUse(fn.FreeVars[idx], 0) {
+					return true
+				}
 			case *ssa.Call:
 				callee := u.Call.StaticCallee()
 				if callee == nil || isRulio(callee) || callee.Blocks != nil && isRulio(callee) {
@@ -844,4 +857,38 @@ func inLoop(f *frame, a *ssa.Alloc) bool {
 		}
 	}
 	return false
+}
+
+// readOnlyUse: a captured variable (pointer) that the closure only loads from.
+func readOnlyUse(v ssa.Value, depth int) bool {
+	if depth > 3 {
+		return false
+	}
+	refs := v.Referrers()
+	if refs == nil {
+		return false
+	}
+	for _, ins := range *refs {
+		switch u := ins.(type) {
+		case *ssa.DebugRef:
+		case *ssa.UnOp:
+			if u.Op != token.MUL {
+				return false
+			}
+		case *ssa.FieldAddr:
+			if !readOnlyUse(u, depth+1) {
+				return false
+			}
+		case *ssa.MakeClosure:
+			fn := u.Fn.(*ssa.Function)
+			for i, b := range u.Bindings {
+				if b == v && (i >= len(fn.FreeVars) || !readOnlyUse(fn.FreeVars[i], depth+1)) {
+					return false
+				}
+			}
+		default:
+			return false
+		}
+	}
+	return true
 }
